@@ -33,6 +33,10 @@ pub struct TrainCase {
     pub trace: Vec<(f64, f64)>,
     pub save_interval: Option<usize>,
     pub simulation_days: Option<i32>,
+    /// set-speed only: leave the builder's initial speed at its default (0) although the
+    /// trace starts moving; the trace is the authority from the first step on
+    #[serde(default)]
+    pub init_speed_zero: bool,
 }
 
 pub struct TrainRun {
@@ -115,7 +119,8 @@ pub fn run_case(case: &TrainCase) -> TrainRun {
     let path: Vec<LinkIdx> = link_idxs(0..n);
     if case.mode == 0 {
         let built = (|| -> anyhow::Result<SetSpeedTrainSim> {
-            let tsb = case.train.build_builder_init(case.save_interval, None, case.trace.first().map(|p| p.1.max(0.0)))?;
+            let v0 = if case.init_speed_zero { None } else { case.trace.first().map(|p| p.1.max(0.0)) };
+            let tsb = case.train.build_builder_init(case.save_interval, None, v0)?;
             let trace = SpeedTrace::new(
                 case.trace.iter().map(|x| x.0).collect(),
                 case.trace.iter().map(|x| x.1).collect(),
@@ -508,7 +513,7 @@ pub fn gen_set_speed_case(g: &mut Gen, tier: Tier, allow_dummy: bool) -> TrainCa
             v = v_new;
             trace.push((r(t, 1), v));
         }
-        return TrainCase { links, train, mode: 0, trace, save_interval: Some(1), simulation_days: None };
+        return TrainCase { links, train, mode: 0, trace, save_interval: Some(1), simulation_days: None, init_speed_zero: false };
     }
     let o = ChainOpts { max_links: 6, len_weights: [6, 3, 1], ..Default::default() };
     let ahead = g.grid(400.0, 6000.0, 14);
@@ -516,7 +521,7 @@ pub fn gen_set_speed_case(g: &mut Gen, tier: Tier, allow_dummy: bool) -> TrainCa
     let total: f64 = links.iter().map(|l| l.length).sum();
     // consistent inputs: the trace starts at the train's initial time and speed
     let trace = gen_trace(g, total - tp.length - 20.0, 30.0, train.init_time, max_steps);
-    TrainCase { links, train, mode: 0, trace, save_interval: Some(1), simulation_days: None }
+    TrainCase { links, train, mode: 0, trace, save_interval: Some(1), simulation_days: None, init_speed_zero: false }
 }
 
 // ---------------------------------------------------------------------------------------
